@@ -14,19 +14,25 @@ from .common import DECIDER, REPRESENTATION, REPR_MUT, REPR_XO
 
 LEVEL_TEXT = (
     "Static rules on the program creators and deciders: (R1) create_node is interpreted (finite-model abstract "
-    "interpretation, sa/treemodel.py: the repository's own type-form predicates inlined over a model of the typing runtime, "
-    "helpers inlined, recursive creation calls recorded) on one symbolic type of every form - int / float / bool, tuple[A, B], "
-    "list[A], Union[A, B], an abstract symbol, a production P(f1: A, f2: list[A]) - and on every non-raising path builds a "
-    "value of that form from one created value per part, in order; the stack mapper keeps the dispatch-table rule (tuple, "
-    "annotated, union, abstract before the concrete fallback; no contradictory origin test); (R2) no generator / map / filter "
-    "/ zip object flows into a field, a constructor argument list, a stack or a return; (R3) every decider's random_int / "
-    "random_float / random_bool returns exactly int / float / bool (mypy types plus inferred return kinds through "
-    "unannotated helpers); (R4) every chooser is abstractly interpreted (affine domain, helper methods inlined, 'a or b' "
-    "fall-backs, emptiness branches) and on every path returns random.choice of / an element of the offered alternatives or "
-    "a comprehension-filtered copy; (R5) every loop or comprehension over the declared fields contributes exactly one "
-    "constructor argument per field on every path; (R6) explicit raises reachable from the representation entry points are "
-    "the library's own error types or are caught; (R7) the readers of class declarations keep no cache. Not decided: that "
-    "typing reflection yields the assumed forms for every user class."
+    "interpretation, sa/treemodel.py: the repository's own type-form predicates inlined over a model of the "
+    "typing runtime, helpers inlined, recursive creation calls recorded) on one symbolic type of every form - int"
+    " / float / bool, tuple[A, B], list[A], Union[A, B], an abstract symbol, a production P(f1: A, f2: list[A]) -"
+    " and on every non-raising path builds a value of that form from one created value per part, in order; the "
+    "stack mapper is interpreted too (sa/rules/stackmodel.py: a scripted sequence of target types, base values "
+    "that remember their kind, try/except followed): what is built for a production with an int, a tuple, a list "
+    "or a refined field is one value of the declared form per field; (R2) no generator / map / filter / zip "
+    "object flows into a field, a constructor argument list, a stack or a return; (R3) every decider's random_int"
+    " / random_float / random_bool returns exactly int / float / bool (mypy types plus inferred return kinds "
+    "through unannotated helpers); (R4) every chooser is abstractly interpreted (affine domain, helper methods "
+    "inlined, 'a or b' fall-backs, emptiness branches) and on every path returns random.choice of / an element of"
+    " the offered alternatives or a comprehension-filtered copy; (R5) every loop or comprehension over the "
+    "declared fields contributes exactly one constructor argument per field on every path; (R6) explicit raises "
+    "reachable from the representation entry points are the library's own error types or are caught; (R7) the "
+    "readers of class declarations keep no cache; (R8) creation model (sa/rules/creationmodel.py): random_node is"
+    " interpreted with each real decider object (constructors interpreted) over ALL decision scripts on four "
+    "model grammars, limits up to 3 (thorough: 4): every producible program is well-typed for the grammar. Small "
+    "scope: the listed grammars and limits. Not decided: that typing reflection yields the assumed forms for "
+    "every user class."
 )
 
 CREATE_NODE = "geneticengine.representations.tree.initializations:create_node"
